@@ -41,6 +41,9 @@ def one : Dir → Nat → Bool
 /-- the regex's two-digit alternatives together accept exactly lo..hi -/
 def inRng (D : Dir) (a b : Nat) : Bool := decide (lo D ≤ two a b) && decide (two a b ≤ hi D)
 
+theorem inRng_iff {D : Dir} {a b : Nat} : inRng D a b = true ↔ lo D ≤ two a b ∧ two a b ≤ hi D := by
+  simp [inRng]
+
 /-- shape of `Dir.alts` on two ASCII digits -/
 def altsTwo (D : Dir) (a b : Nat) (r : Str) : List (Nat × Str) :=
   (if inRng D a b then [(two a b, r)] else []) ++ (if one D a then [(a - 48, b :: r)] else [])
